@@ -283,3 +283,11 @@ Definition r_full_payment (m : mconfig K) (tbl : list (list Z * Z)) (st : stage 
   | PAmountRefused st' e => 2 :: enc_out (OError e) ++ enc_stage st'
   | PStuck k st' => [3; Z.of_nat k]
   end.
+Definition r_full_establish (m : mconfig K) (tbl : list (list Z * Z)) (cid cb mb : Z)
+           (nonce lock bfs kbfs : Z) (ks : list Z) (bfc kbfc kclose : Z) (ctx : list Z) (u1 u2 : Z) : list Z :=
+  match full_establish closeK (table_chal tbl) m (fq cid) cb mb
+          (mkED (fq nonce) (fq lock) (fq bfs) (fq kbfs) (fqs ks) (fq bfc) (fq kbfc) (fq kclose)) ctx (fq u1) (fq u2) with
+  | PDone st' => 1 :: enc_stage st'
+  | PAmountRefused st' e => 2 :: enc_out (OError e) ++ enc_stage st'
+  | PStuck k st' => [3; Z.of_nat k]
+  end.
